@@ -196,7 +196,7 @@ mutual
     | a :: as => by simp only [Value.eqbs, Value.eqb_refl a, Value.eqbs_refl as, Bool.and_self]
 end
 
-instance : DecidableEq Value := fun a b =>
+instance Value.instDecEqC01Dispatch : DecidableEq Value := fun a b =>
   if h : Value.eqb a b = true then isTrue (Value.eqb_sound a b h)
   else isFalse fun e => h (e ▸ Value.eqb_refl a)
 
